@@ -36,8 +36,10 @@ REPO = os.environ.get('VERIF_REPO', '/repo')
 HERE = os.path.dirname(os.path.dirname(os.path.dirname(os.path.abspath(__file__))))
 
 Z, L, LL, LB, B = 'Z', 'list Z', 'list (list Z)', 'list bool', 'bool'
-DEFAULT = {Z: '0', L: '[]', LL: '[]', LB: '[]', B: 'false'}
-ELEM = {L: Z, LL: L, LB: B}
+IT, LIT = 'item', 'list item'
+DEFAULT = {Z: '0', L: '[]', LL: '[]', LB: '[]', B: 'false', IT: 'ItOther', LIT: '[]'}
+ELEM = {L: Z, LL: L, LB: B, LIT: IT}
+COERCE = {(IT, B): '(ItBool %s)'}      # a Python bool stored in a variable that holds index items
 
 
 class Untranslatable(Exception):
@@ -49,7 +51,8 @@ def _src(n):
 
 
 class Fn:
-    def __init__(self, path, cls, name, params, locals_, ambient, skip, ret, tag):
+    def __init__(self, path, cls, name, params, locals_, ambient, skip, ret, tag, pairs=None):
+        self.pairs = pairs or {}
         self.path, self.cls, self.name, self.tag = path, cls, name, tag
         self.params, self.locals, self.ambient, self.skip, self.ret = params, locals_, ambient, skip, ret
         self.vars = dict(params)
@@ -71,7 +74,11 @@ class Tr:
         sp = self.spec
         if text in sp.ambient:
             c, t = sp.ambient[text]
-            return (c if c not in sp.vars else self.var(c), t, [])
+            if c in sp.vars:
+                return (self.var(c), t, [])
+            for v in sp.vars:                       # "{name}" in an ambient entry reads that local
+                c = c.replace('{%s}' % v, self.var(v))
+            return (c, t, [])
         if isinstance(e, ast.Name):
             if e.id in sp.vars:
                 return (self.var(e.id), sp.vars[e.id], [])
@@ -194,6 +201,21 @@ class Tr:
             return None
         if isinstance(st, ast.Expr) and isinstance(st.value, ast.Constant):
             return None
+        if (isinstance(st, ast.Assign) and len(st.targets) == 1 and isinstance(st.targets[0], ast.Name)
+                and st.targets[0].id in sp.pairs and _src(st.value) == '{False: [], True: []}'):
+            f_, t_ = sp.pairs[st.targets[0].id]
+            return '(fun s => Some %s)' % self.setter(t_, '[]').replace(' s ', ' %s ' % self.setter(f_, '[]'), 1)
+        if (isinstance(st, ast.Expr) and isinstance(st.value, ast.Call) and isinstance(st.value.func, ast.Attribute)
+                and st.value.func.attr == 'append' and isinstance(st.value.func.value, ast.Subscript)
+                and isinstance(st.value.func.value.value, ast.Name) and st.value.func.value.value.id in sp.pairs
+                and len(st.value.args) == 1 and not st.value.keywords):
+            f_, t_ = sp.pairs[st.value.func.value.value.id]
+            c, k = self.truth(st.value.func.value.slice)
+            e, te, ke = self.expr(st.value.args[0])
+            if te != Z:
+                raise Untranslatable('appended value %s' % text)
+            return '(fun s => %s)' % self.guard(k + ke, 'if %s then Some %s else Some %s' % (
+                c, self.setter(t_, '(%s ++ [%s])' % (self.var(t_), e)), self.setter(f_, '(%s ++ [%s])' % (self.var(f_), e))))
         if isinstance(st, ast.Pass):
             return '(fun s => Some s)'
         if isinstance(st, ast.Raise):
@@ -207,6 +229,8 @@ class Tr:
                 if tg.id not in sp.vars:
                     raise Untranslatable('assignment to undeclared name %s' % tg.id)
                 c, t, k = self.expr(st.value, want=sp.vars[tg.id])
+                if (sp.vars[tg.id], t) in COERCE:
+                    c, t = COERCE[(sp.vars[tg.id], t)] % c, sp.vars[tg.id]
                 if t != sp.vars[tg.id]:
                     raise Untranslatable('%s : %s is assigned a %s' % (tg.id, sp.vars[tg.id], t))
                 return '(fun s => %s)' % self.guard(k, 'Some %s' % self.setter(tg.id, c))
@@ -277,7 +301,13 @@ class Tr:
         init = 'mk_%s %s' % (n, ' '.join(p_ if p_ in sp.params else DEFAULT[sp.vars[p_]] for p_ in names))
         if sp.ret is None:
             raise Untranslatable('no result declared')
-        if ret is not None:
+        if ret is not None and sp.ret[0] is not None:
+            if _src(ret) != sp.ret[2]:
+                raise Untranslatable('return value %s' % _src(ret))
+            c = sp.ret[0]
+            for v in sp.vars:
+                c = c.replace('{%s}' % v, self.var(v))
+        elif ret is not None:
             c, t, k = self.expr(ret)
             if k or t != sp.ret[1]:
                 raise Untranslatable('return value %s' % _src(ret))
@@ -311,6 +341,23 @@ SPECS = [
        ret=('selections', LB), tag='ca'),
 ]
 
+SPECS.append(
+    Fn('polymath/extensions/indexer.py', None, '_prep_scalar_index',
+       params={'indx': LIT},
+       locals_={'has_ellipsis': B, 'has_bool': B, 'masked': B, 'size_zero': B, 'shapes_f': L, 'shapes_t': L, 'item': IT},
+       ambient={'isinstance(item, Qube)': ('(is_qube {item})', B), 'item._shape_': ('(qshaped {item})', B),
+                'item.is_bool()': ('(qisbool {item})', B), 'item._mask_': ('(qmask {item})', B),
+                'item._values_': ('(ItBool (qval {item}))', IT),
+                'isinstance(item, (bool, np.bool_))': ('(is_pybool {item})', B),
+                'not item': ('(negb (boolval {item}))', B),
+                'item is Ellipsis': ('(is_ell {item})', B), 'item is None': ('(is_none {item})', B),
+                'isinstance(item, slice)': ('(is_slice {item})', B),
+                'item != slice(None, None, None)': ('(negb (slice_full {item}))', B)},
+       skip={"if not isinstance(indx, (tuple, list)):\n    indx = (indx,)"},
+       ret=('({masked}, {size_zero}, {shapes_f}, {shapes_t})', 'bool * bool * list Z * list Z',
+            '(masked, size_zero, tuple(shapes[False]), tuple(shapes[True]))'),
+       tag='psi', pairs={'shapes': ('shapes_f', 'shapes_t')}))
+
 PRELUDE = '''(* GENERATED by tools/regen/loops_ast.py from %s - do not edit *)
 From Coq Require Import List ZArith Bool.
 From PM Require Import LoopModel.
@@ -332,9 +379,16 @@ def find(tree, cls, name):
     raise Untranslatable('function %s not found' % name)
 
 
+PROP = None          # set by the harness: emit only the functions this property's obligation file uses
+USED_BY = {'C04': ['broadcasted_shape'], 'C13': ['_check_axis'], 'C09': ['_prep_scalar_index'],
+           'C10': ['_prep_scalar_index']}
+
+
 def generate(out_path=None):
     defs = []
     for sp in SPECS:
+        if PROP in USED_BY and sp.name not in USED_BY[PROP]:
+            continue
         tree = ast.parse(open(os.path.join(REPO, sp.path)).read())
         fn = find(tree, sp.cls, sp.name)
         try:
